@@ -6,7 +6,7 @@ import vlib, http_common
 
 # C13Src: the body of Role::is_allowed regenerated from the source (pure_fns) = the model function the theorems are about
 MODULES = ["KrillModel.Props.C13", "KrillModel.Props.C13Src"]
-TABLES = [("permissions", "Perm.lean"), ("routes", "Routes.lean"), ("pure_fns:C13", "PureFns.lean")]
+TABLES = [("permissions", "Perm.lean"), ("routes", "Routes.lean"), ("pure_fns:C13", "PureFnsC13.lean")]
 
 RULE = ("stream http: the real daemon (start_krill_daemon, in process) on a Unix socket and a private loopback TCP port, "
         "config-file auth provider; one case per role (random subsets of the 22 permissions as simple / config-file "
